@@ -352,9 +352,31 @@ pub fn run(prop: &str, seed: u64, ninputs: usize, trace_path: Option<&str>, expo
         Api::RawLzma2,
         Api::StreamDec,
     ];
+    // inputs on which the range encoder resolves a run of pending 0xFF bytes by a carry (found offline, see
+    // d_carry.rs): the place where its hand-over to the sink takes more than one byte per step
+    let mut carry_inputs: Vec<(Vec<u8>, String)> = vec![];
+    let cpath = std::env::var("LZVERIF_CORPUS").unwrap_or_else(|_| "/verif/corpus/enc_edge_inputs.json".to_string());
+    if let Ok(t) = std::fs::read_to_string(&cpath) {
+        if let Ok(v) = serde_json::from_str::<Value>(&t) {
+            for e in v["inputs"].as_array().cloned().unwrap_or_default() {
+                if let (Some(h), Some(b)) = (e["input_hex"].as_str(), e["boundary"].as_str()) {
+                    if b.starts_with("carry through") {
+                        carry_inputs.push((crate::report::unhex(h), format!("corpus:{}", b.replace(' ', "-"))));
+                    }
+                }
+            }
+        }
+    }
+    rep.add("encoder_carry_corpus_inputs", carry_inputs.len() as u64);
     for a in apis.iter().cloned() {
-        for which in 0..ninputs {
-            let (input, iname) = sample_inputs(&mut rng, a, which);
+        let mut inputs: Vec<(Vec<u8>, String)> = (0..ninputs).map(|which| sample_inputs(&mut rng, a, which)).collect();
+        if matches!(a, Api::LzmaEnc(_)) && !carry_inputs.is_empty() {
+            let take = if ninputs > 20 { carry_inputs.len() } else { 5 };
+            for k in 0..take {
+                inputs.push(carry_inputs[(seed as usize + k * 3 + matches!(a, Api::LzmaEnc(1)) as usize) % carry_inputs.len()].clone());
+            }
+        }
+        for (which, (input, iname)) in inputs.into_iter().enumerate() {
             let a = opt_for(a, &input);
             // fault-free run defines the call counts; its output must be what the oracle says
             let empty = Rc::new(vec![]);
